@@ -1,6 +1,341 @@
-//! C09 — not built yet (stub; replaced by the real check).
+//! C09 — multi-party PSET blinding balances for every split and order of blinders.
+use std::collections::{BTreeMap, HashMap};
+use std::str::FromStr;
+
+use elements::confidential::{Asset, AssetBlindingFactor, Nonce, Value, ValueBlindingFactor};
+use elements::encode::{deserialize, serialize};
+use elements::pset::{Input, Output, PartiallySignedTransaction as Pset};
+use elements::secp256k1_zkp::{PublicKey, SecretKey};
+use elements::{bitcoin, AssetId, BlindAssetProofs, BlindValueProofs, CtLocation, CtLocationType, OutPoint, Script, TxOut, TxOutSecrets, TxOutWitness};
+use rand::SeedableRng;
+use rand_chacha::ChaCha20Rng;
+use serde_json::json;
+
 use crate::engine::*;
+use crate::gen::ct::{self, abf_from, vbf_from};
+use crate::gen::{self, pool, secp};
+use crate::{ensure, ensure_eq};
+
+struct OutSpec {
+    asset: AssetId,
+    value: u64,
+    /// Some(party) = blinded by that party
+    owner: Option<usize>,
+    fee: bool,
+    receiver: Option<SecretKey>,
+}
+
+pub struct Case {
+    pset: Pset,
+    utxos: Vec<TxOut>,
+    /// per party: input index -> secrets
+    secrets: Vec<HashMap<usize, TxOutSecrets>>,
+    outs: Vec<OutSpec>,
+    n_assets: usize,
+    has_issuance: bool,
+    seeds: Vec<[u8; 32]>,
+}
+
+fn amount(t: &mut Tape) -> u64 {
+    // keep per-asset sums far below 2^64
+    (ct::gen_amount(t) & ((1 << 50) - 1)).max(1)
+}
+
+fn split(t: &mut Tape, total: u64, parts: usize) -> Vec<u64> {
+    let mut out = Vec::new();
+    let mut rest = total;
+    for k in 0..parts {
+        let remaining = (parts - k - 1) as u64;
+        if remaining == 0 {
+            out.push(rest);
+        } else {
+            let max = rest - remaining;
+            let v = (1 + ((u128::from(t.u64()) * u128::from(max)) >> 64) as u64).clamp(1, max);
+            out.push(v);
+            rest -= v;
+        }
+    }
+    out
+}
+
+fn gen_case(t: &mut Tape) -> Case {
+    let p = pool();
+    let k = 1 + t.below(4);
+    let n_assets = 1 + t.below(3);
+    let mut pset = Pset::new_v2();
+    let mut utxos = Vec::new();
+    let mut secrets: Vec<HashMap<usize, TxOutSecrets>> = vec![HashMap::new(); k];
+    // (asset -> total), (asset -> holders)
+    let mut totals: BTreeMap<AssetId, u64> = BTreeMap::new();
+    let mut holders: BTreeMap<AssetId, Vec<usize>> = BTreeMap::new();
+    let mut party_inputs: Vec<Vec<usize>> = vec![Vec::new(); k];
+    let mut has_issuance = false;
+    let mut issued: Vec<(AssetId, u64, usize)> = Vec::new();
+    for party in 0..k {
+        let n_in = 1 + t.below(2);
+        for _ in 0..n_in {
+            let idx = utxos.len();
+            let asset = p.assets[t.below(n_assets)];
+            let value = amount(t);
+            let conf = t.chance(170);
+            let (abf, vbf) = if conf { (abf_from(t, idx as u32), vbf_from(t, idx as u32)) } else { (AssetBlindingFactor::zero(), ValueBlindingFactor::zero()) };
+            let utxo = if conf {
+                TxOut {
+                    asset: Asset::new_confidential(secp(), asset, abf),
+                    value: Value::new_confidential_from_assetid(secp(), value, asset, vbf, abf),
+                    nonce: Nonce::Null,
+                    script_pubkey: ct::std_script(t),
+                    witness: TxOutWitness::empty(),
+                }
+            } else {
+                TxOut { asset: Asset::Explicit(asset), value: Value::Explicit(value), nonce: Nonce::Null, script_pubkey: ct::std_script(t), witness: TxOutWitness::empty() }
+            };
+            let mut inp = Input::from_prevout(OutPoint { txid: gen::gen_txid(t), vout: gen::gen_vout(t) & 0xffff });
+            inp.witness_utxo = Some(utxo.clone());
+            // an explicit, unblinded issuance whose owner receives the issued asset
+            if !has_issuance && t.chance(40) {
+                has_issuance = true;
+                let a = amount(t);
+                inp.issuance_value_amount = Some(a);
+                inp.issuance_asset_entropy = Some(t.arr32());
+                inp.blinded_issuance = Some(0);
+                let (asset_id, _) = inp.issuance_ids();
+                issued.push((asset_id, a, party));
+            }
+            pset.add_input(inp);
+            utxos.push(utxo);
+            secrets[party].insert(idx, TxOutSecrets::new(asset, abf, value, vbf));
+            party_inputs[party].push(idx);
+            *totals.entry(asset).or_insert(0) += value;
+            let h = holders.entry(asset).or_default();
+            if !h.contains(&party) {
+                h.push(party);
+            }
+        }
+    }
+    // every party gets at least one blinded output, of an asset it holds
+    let mut guaranteed: BTreeMap<AssetId, Vec<usize>> = BTreeMap::new();
+    for party in 0..k {
+        let mine: Vec<AssetId> = holders.iter().filter(|(_, h)| h.contains(&party)).map(|(a, _)| *a).collect();
+        let a = mine[t.below(mine.len())];
+        guaranteed.entry(a).or_default().push(party);
+    }
+    let mut outs: Vec<OutSpec> = Vec::new();
+    for (asset, total) in &totals {
+        let g = guaranteed.get(asset).cloned().unwrap_or_default();
+        let h = &holders[asset];
+        let room = total.saturating_sub(g.len() as u64).min(3) as usize;
+        let extras = t.below(room + 1);
+        // an asset nobody is guaranteed an output of must still be spent somewhere
+        let extras = if g.is_empty() && extras == 0 { 1 } else { extras };
+        let parts = split(t, *total, g.len() + extras);
+        for (i, v) in parts.into_iter().enumerate() {
+            if i < g.len() {
+                outs.push(OutSpec { asset: *asset, value: v, owner: Some(g[i]), fee: false, receiver: None });
+            } else {
+                match t.below(3) {
+                    0 => outs.push(OutSpec { asset: *asset, value: v, owner: Some(h[t.below(h.len())]), fee: false, receiver: None }),
+                    1 => outs.push(OutSpec { asset: *asset, value: v, owner: None, fee: true, receiver: None }),
+                    _ => outs.push(OutSpec { asset: *asset, value: v, owner: None, fee: false, receiver: None }),
+                }
+            }
+        }
+    }
+    for (asset, a, party) in &issued {
+        let parts = if *a >= 2 && t.bool() { split(t, *a, 2) } else { vec![*a] };
+        for v in parts {
+            outs.push(OutSpec { asset: *asset, value: v, owner: Some(*party), fee: false, receiver: None });
+        }
+    }
+    for i in (1..outs.len()).rev() {
+        let j = t.below(i + 1);
+        outs.swap(i, j);
+    }
+    for o in outs.iter_mut() {
+        let spk = if o.fee { Script::new() } else { ct::std_script(t) };
+        let mut out = Output::new_explicit(spk, o.value, o.asset, None);
+        if let Some(party) = o.owner {
+            let sk = p.seckeys[t.below(p.seckeys.len())];
+            o.receiver = Some(sk);
+            out.blinding_key = Some(bitcoin::PublicKey { inner: PublicKey::from_secret_key(secp(), &sk), compressed: true });
+            let mine = &party_inputs[party];
+            out.blinder_index = Some(mine[t.below(mine.len())] as u32);
+        }
+        pset.add_output(out);
+    }
+    // distinct RNG seeds per party even on an exhausted tape (equal seeds would make two parties draw
+    // the same blinding factors and publish the same scalar, which real blinders do not)
+    let seeds = (0..k + 1).map(|i| ct::fresh_scalar(t, 5000 + i as u32)).collect();
+    Case { pset, utxos, secrets, outs, n_assets: totals.len() + issued.len(), has_issuance, seeds }
+}
+
+fn hop(p: &Pset, base64: bool) -> Result<Pset, Failure> {
+    if base64 {
+        let s = guard::guard("pset.to_string", 0, || p.to_string())?;
+        match guard::guard("Pset::from_str", s.len(), || Pset::from_str(&s))? {
+            Ok(x) => Ok(x),
+            Err(e) => Err(Failure::new(format!("a PSET between two blinding steps does not survive the base64 hop: {}", e))),
+        }
+    } else {
+        let b = guard::guard("serialize", 0, || serialize(p))?;
+        match guard::guard("deserialize", b.len(), || deserialize::<Pset>(&b))? {
+            Ok(x) => Ok(x),
+            Err(e) => Err(Failure::new(format!("a PSET between two blinding steps does not survive the serialization hop: {}", e))),
+        }
+    }
+}
+
+type Factors = BTreeMap<CtLocation, (AssetBlindingFactor, ValueBlindingFactor, SecretKey)>;
+
+/// run one blinding history; returns the final PSET and every reported factor
+fn run_order(case: &Case, order: &[usize], hops: &[bool], ctx: &mut Ctx) -> Result<(Pset, Factors), Failure> {
+    let mut pset = case.pset.clone();
+    let mut all: Factors = BTreeMap::new();
+    let last = order[order.len() - 1];
+    for (step, &party) in order.iter().enumerate() {
+        pset = hop(&pset, hops[step % hops.len()])?;
+        let mut rng = ChaCha20Rng::from_seed(case.seeds[party]);
+        let is_last = party == last && step + 1 == order.len();
+        let r = if is_last {
+            guard::guard("blind_last", 0, || pset.blind_last(&mut rng, secp(), &case.secrets[party]))?
+        } else {
+            guard::guard("blind_non_last", 0, || pset.blind_non_last(&mut rng, secp(), &case.secrets[party]))?
+        };
+        ctx.eval();
+        match r {
+            Ok(f) => {
+                for (k, v) in f {
+                    all.insert(k, v);
+                }
+            }
+            Err(e) => {
+                return Err(Failure::new(format!(
+                    "{} failed for party {} at step {} of order {:?}: {} ({:?})",
+                    if is_last { "blind_last" } else { "blind_non_last" },
+                    party,
+                    step,
+                    order,
+                    e,
+                    e
+                )))
+            }
+        }
+        if !is_last {
+            ensure_eq!(pset.global.scalars.len(), step + 1, "number of published scalars after {} non-last blinders", step + 1);
+        }
+    }
+    pset = hop(&pset, false)?;
+    Ok((pset, all))
+}
+
+fn check_final(case: &Case, pset: &Pset, factors: &Factors, ctx: &mut Ctx) -> R {
+    ensure!(pset.global.scalars.is_empty(), "scalar list not empty after the last blinder: {}", pset.global.scalars.len());
+    let tx = match guard::guard("extract_tx", 0, || pset.extract_tx())? {
+        Ok(t) => t,
+        Err(e) => return Err(Failure::new(format!("extract_tx failed after blinding: {}", e))),
+    };
+    let v = guard::guard("verify_tx_amt_proofs", 0, || tx.verify_tx_amt_proofs(secp(), &case.utxos))?;
+    ctx.eval();
+    if let Err(e) = v {
+        return Err(Failure::new(format!("the extracted transaction does not pass amount verification: {} ({:?})", e, e)));
+    }
+    for (j, spec) in case.outs.iter().enumerate() {
+        let o = &pset.outputs()[j];
+        match spec.receiver {
+            None => {
+                ensure!(o.amount_comm.is_none() && o.asset_comm.is_none(), "explicit output {} was blinded", j);
+                ensure!(tx.output[j].value == Value::Explicit(spec.value) && tx.output[j].asset == Asset::Explicit(spec.asset), "explicit output {} changed", j);
+            }
+            Some(sk) => {
+                ensure!(o.is_fully_blinded(), "marked output {} is not fully blinded", j);
+                let un = guard::guard("unblind", 0, || tx.output[j].unblind(secp(), sk))?;
+                ctx.eval();
+                match un {
+                    Ok(s) => {
+                        ensure!(s.asset == spec.asset && s.value == spec.value, "output {} unblinds to asset {} value {}, expected {} {}", j, s.asset, s.value, spec.asset, spec.value);
+                        if let Some((abf, vbf, _)) = factors.get(&CtLocation { input_index: j, ty: CtLocationType::Input }) {
+                            ensure!(s.asset_bf == *abf && s.value_bf == *vbf, "output {}: unblinded factors differ from the ones the blinder reported", j);
+                            ensure!(Asset::new_confidential(secp(), spec.asset, *abf) == tx.output[j].asset, "reported abf does not reproduce the asset commitment of output {}", j);
+                            ensure!(Value::new_confidential_from_assetid(secp(), spec.value, spec.asset, *vbf, *abf) == tx.output[j].value, "reported vbf does not reproduce the value commitment of output {}", j);
+                        } else {
+                            return Err(Failure::new(format!("no blinding factors were reported for output {}", j)));
+                        }
+                    }
+                    Err(e) => return Err(Failure::new(format!("receiver cannot unblind output {}: {}", j, e))),
+                }
+                // stored explicit-value / explicit-asset proofs
+                match (&o.blind_value_proof, &o.blind_asset_proof, o.amount, o.asset, o.amount_comm, o.asset_comm) {
+                    (Some(vp), Some(ap), Some(amt), Some(asset), Some(vc), Some(ac)) => {
+                        ensure!(amt == spec.value && asset == spec.asset, "explicit amount / asset of output {} changed", j);
+                        ensure!(guard::guard("blind_value_proof_verify", 0, || vp.blind_value_proof_verify(secp(), amt, ac, vc))?, "stored blind_value_proof of output {} does not verify", j);
+                        ensure!(guard::guard("blind_asset_proof_verify", 0, || ap.blind_asset_proof_verify(secp(), asset, ac))?, "stored blind_asset_proof of output {} does not verify", j);
+                        ctx.evals_n(2);
+                    }
+                    _ => return Err(Failure::new(format!("blinded output {} lacks explicit value / asset proofs or fields", j))),
+                }
+            }
+        }
+    }
+    Ok(())
+}
+
+fn histories(t: &mut Tape, ctx: &mut Ctx) -> R {
+    let case = gen_case(t);
+    let k = case.secrets.len();
+    let mut order: Vec<usize> = (0..k).collect();
+    for i in (1..k).rev() {
+        let j = t.below(i + 1);
+        order.swap(i, j);
+    }
+    let hops: Vec<bool> = (0..4).map(|_| t.chance(64)).collect();
+    let (pset, factors) = run_order(&case, &order, &hops, ctx)?;
+    check_final(&case, &pset, &factors, ctx)?;
+    // another permutation of the same case must succeed as well
+    if k >= 2 {
+        let mut other = order.clone();
+        other.rotate_left(1 + t.below(k - 1));
+        let (pset2, factors2) = run_order(&case, &other, &hops, ctx)?;
+        check_final(&case, &pset2, &factors2, ctx)?;
+        ctx.class("second-permutation");
+    }
+    let per_party: Vec<usize> = (0..k).map(|p| case.outs.iter().filter(|o| o.owner == Some(p)).count()).collect();
+    let nt = (k >= 2 && case.n_assets >= 2) || k >= 3 || per_party.iter().any(|n| *n >= 2);
+    ctx.class(&format!("parties:{}", k));
+    ctx.class(&format!("assets:{}", case.n_assets.min(4)));
+    if case.has_issuance {
+        ctx.class("with-issuance");
+    }
+    if nt {
+        ctx.nontrivial(&(serialize(&case.pset), order.clone()));
+    }
+    let cls = format!("history:parties{}", k);
+    if ctx.wants_sample(&cls) {
+        ctx.sample(&cls, || json!({"parties": k, "order": order, "base64_hops": hops, "inputs": case.utxos.len(),
+            "outputs": case.outs.iter().map(|o| json!({"value": o.value, "blinded_by": o.owner, "fee": o.fee})).collect::<Vec<_>>(),
+            "issuance": case.has_issuance}));
+    }
+    Ok(())
+}
 
 pub fn property() -> Property {
-    Property { id: "C09", rule: "", assumptions: &[], subs: vec![], known: vec![] }
+    Property {
+        id: "C09",
+        rule: "histories: 1..4 parties, each owning 1..2 inputs (confidential with known secrets, or explicit) over 1..3 assets \
+               (+ optional explicit unblinded issuance whose owner receives the issued asset); per-asset totals split into \
+               outputs: >=1 blinded output per party of an asset it holds plus extra blinded (assigned by blinder index to any \
+               holder of that asset), explicit and fee outputs, tape order; amounts balance per asset globally but not per \
+               party. History = a tape permutation of the parties, all but the last running blind_non_last with only their own \
+               secrets, the last blind_last, with a binary or base64 serialize/deserialize hop before every step and after \
+               the last; a second rotation of the same case is run too. Oracle: every step Ok; #scalars == #non-last blinders \
+               done; finally scalars empty, every marked output fully blinded, extract_tx().verify_tx_amt_proofs(utxos) Ok, \
+               each output unblinds with its receiver key to (asset, value), reported factors reproduce the commitments, \
+               stored blind_value_proof / blind_asset_proof verify. Non-trivial: >=2 parties and >=2 assets, or >=3 parties, \
+               or a party with >=2 outputs; distinct by (initial PSET, order).",
+        assumptions: &[
+            "outputs are only assigned to parties holding an input of that asset, and every party blinds at least one output (the statement's precondition)",
+            "secp256k1-zkp is the trusted base",
+        ],
+        subs: vec![Sub { name: "histories", kind: Kind::Tape { max_len: 3000, quick: 1_500, thorough: 60_000, f: histories } }],
+        known: vec![],
+    }
 }
